@@ -15,26 +15,32 @@ REAL = ['onl.sim.core.Environment (through TapEnvironment subclass)', 'onl.sim.e
 STUBS = ['process bodies are the harness interpreter body(); plain callbacks are harness closures']
 ASSUMPTIONS = ['occurrence class (urgent/normal) is derived from the event type, not from the priority passed',
                'TapEnvironment only observes schedule()/step() and prepends one probe callback']
-PROBES = ['long_run_2pow20_events', 'instants_ge3', 'urgent_and_normal_same_instant', 'until_coincides_normal', 'zero_chain_ge3',
+PROBES = ['observed_without_probes', 'long_run_2pow20_events', 'instants_ge3', 'urgent_and_normal_same_instant', 'until_coincides_normal', 'zero_chain_ge3',
           'neg_timeout', 'interrupt_issued', 'until_refused']
 
 
 def _maybe_long_run(rng, tier, case):
-    """Rarely: one process first schedules more than 2**20 filler events, so that the occurrences of interest are
-    triggered more than a million events apart (sequence counters, tie-breakers)."""
+    """Rarely: more than 2**20 unrecorded filler events are scheduled between the triggering of an ordinary occurrence
+    and of an interrupt that fall due at the same instant (sequence counters, tie-breakers, packed sort keys)."""
     if rng.random() < (1 / 2500 if tier == 'quick' else 1 / 1200):
-        procs = [it for it in case['setup'] if it.get('k') == 'proc' and it.get('ops')]
-        if procs:
-            it = rng.choice(procs)
-            it['ops'].insert(rng.randint(0, len(it['ops'])), {'op': 'tick', 'n': 2 ** 20 + rng.randint(10, 500)})
-            case['long_run'] = True
+        n = 2 ** 20 + rng.randint(50, 500)
+        d = rng.choice([1, 2, 3])
+        # created first: the interrupter (wakes first at t0+d), then the victim (its timeout is triggered early), then the
+        # ticker that burns the event counter at t0
+        pre = [{'k': 'proc', 'id': 'li', 'ops': [{'op': 'timeout', 'd': d, 'v': 0, 'h': 'cont'},
+                                                  {'op': 'interrupt', 'p': 'lv', 'cause': 'late'}]},
+               {'k': 'proc', 'id': 'lv', 'ops': [{'op': 'timeout', 'd': d, 'v': 1, 'h': 'cont'},
+                                                  {'op': 'timeout', 'd': 1, 'v': 2, 'h': 'cont'}]},
+               {'k': 'proc', 'id': 'lt', 'ops': [{'op': 'tick', 'n': n}]}]
+        case['setup'] = pre + case['setup']
+        case['long_run'] = True
 
 
 def gen(rng, tier):
     big = tier == 'thorough' and rng.random() < 0.3
     prof = Prof(rng)
     prof.pool = rng.choice(['GRID', 'GRID', 'INTS', 'FLOAT', 'NASTY', 'GRID'])
-    prof.max_procs = rng.choice([2, 3, 5, 7]) + (3 if big else 0)
+    prof.max_procs = rng.choice([2, 3, 5, 7, 12]) + (3 if big else 0)
     prof.max_ops = rng.choice([3, 5, 9]) + (4 if big else 0)
     w = prof.w
     w['interrupt'] = rng.choice([0, 1, 3])
@@ -47,7 +53,25 @@ def gen(rng, tier):
     prof.top_timeouts = rng.choice([2, 2, 8])
     w['succeed'] = rng.choice([0, 2, 3])
     prof.handlers = ['cont', 'cont', 'rewait', 'ret', 'other', 'raise', 'none']
+    if rng.random() < 0.15:
+        # a crowd: many sleepers with distinct due times (a deep agenda) and interrupts that pull sleepers off their
+        # own timeouts
+        prof.pool = rng.choice(['FLOAT', 'NASTY', 'GRID'])
+        prof.max_procs = 14
+        prof.max_ops = 9
+        prof.max_shared = 0
+        for k in w:
+            w[k] = 0
+        w['timeout'] = 8
+        w['interrupt'] = 2
+        w['fire'] = 2
+        prof.top_timeouts = 8
+        prof.handlers = ['cont']
     case = gen_program(rng, prof)
+    if rng.random() < 0.25:
+        # observed without probe callbacks: nothing is added to any event's callbacks list (code that looks at that list
+        # behaves as in production); the order clause then rests on the clock and on the bodies' own observations
+        case['noprobe'] = True
     _maybe_long_run(rng, tier, case)
     pool = POOLS[prof.pool]
     plan = []
@@ -75,6 +99,7 @@ def check(log, quiescent):
     stats = {}
     inst = {}          # now -> list of (cls,label)
     yields = {}
+    noprobe = any(r[0] == 'N' for r in log)
     for r in log:
         tag = r[0]
         if tag == 'T':
@@ -86,6 +111,8 @@ def check(log, quiescent):
             if kind == 'intr':
                 stats['interrupt_issued'] = 1
         elif tag == 'P':
+            if noprobe:
+                continue
             _, g, lb, now, st = r[:5]
             lst = cur.get(lb)
             if not lst:
@@ -112,6 +139,11 @@ def check(log, quiescent):
             if pend and pend[0][0] == key:
                 heapq.heappop(pend)
             inst.setdefault(now, []).append((cls, kind, lb))
+        elif tag == 'N':
+            stats['observed_without_probes'] = 1
+            if last_now is not None and r[2] < last_now:
+                viol.append(('C01.1', 'clock went backwards: %r after %r (kernel step %d)' % (r[2], last_now, r[3])))
+            last_now = r[2]
         elif tag == 'Y':
             yields[(r[4], r[5])] = r
         elif tag == 'R':
@@ -131,6 +163,8 @@ def check(log, quiescent):
                     viol.append(('C01.4', 'refused run(until=%r) still triggered an occurrence' % (r[5],)))
             elif r[4] == 'until' and r[6] == 'illegal-accepted':
                 viol.append(('C01.4', 'run(until=%r) at now=%r was not refused' % (r[5], r[8])))
+    if quiescent and stats.get('observed_without_probes'):
+        quiescent = False      # without probes "took effect" is not recorded per occurrence
     if quiescent:
         left = [(k, lb) for lb, lst in cur.items() for k, kind in lst]
         if left:
